@@ -7,6 +7,7 @@ CONSTANTS
   UnlistByIdentity = TRUE
   AttachEarly = TRUE
   KeepHist = TRUE
+  StartKinds <- StartsBoth
   OpKinds <- AllOps
 INVARIANTS Emit
 CHECK_DEADLOCK FALSE
